@@ -522,6 +522,16 @@ class World:
         sh('git push -q origin %s' % src, u)
         self.observe('env', act=dict(a='push_src', pr=pr_id))
 
+    def restart_src(self, pr_id, file=None):
+        """Start the work again: force-push the source branch to one new commit on top of the destination."""
+        p = self.pr(pr_id)
+        src, dst = p.src_branch, p.dst_branch
+        u = self.user
+        sh('git fetch -q --prune origin; git checkout -q -B %s origin/%s' % (src, dst), u)
+        self._commit(u, file or self._fname(src), content=self._fname('c') if file else None)
+        sh('git push -q -f origin %s' % src, u)
+        self.observe('env', act=dict(a='restart_src', pr=pr_id))
+
     def amend_src(self, pr_id):
         src = self.pr(pr_id).src_branch
         u = self.user
@@ -550,7 +560,7 @@ class World:
         sh('git push -q -f origin %s' % src, u)
         self.observe('env', act=dict(a='reset_src', pr=pr_id))
 
-    def manual_commit(self, pr_id, wname, merge=False):
+    def manual_commit(self, pr_id, wname, merge=False, file=None):
         u = self.user
         sh('git fetch -q --prune origin; git checkout -q -B %s origin/%s' % (wname, wname), u)
         if merge:
@@ -559,7 +569,7 @@ class World:
             sh('git checkout -q %s; git merge -q --no-ff --no-edit side_tmp; git branch -q -D side_tmp'
                % wname, u)
         else:
-            self._commit(u, self._fname('manual'))
+            self._commit(u, file or self._fname('manual'), content=self._fname('c') if file else None)
         sh('git push -q origin %s' % wname, u)
         self.observe('env', act=dict(a='manual_commit', pr=pr_id, w=wname, merge=merge))
 
